@@ -828,6 +828,7 @@ def nlri_plans(th=False):
     from exabgp.bgp.message.update.nlri.mvpn.nlri import MVPN
     from exabgp.bgp.message.update.nlri.bgpls.nlri import BGPLS
     import exabgp.bgp.message.update.nlri.flow as flow
+    from exabgp.bgp.message.update.nlri.inet import INETBase
     plans = []
 
     variants = [('reach', 'asn4'), ('unreach', 'asn4'), ('addpath-reach', 'addpath')] + ([('addpath-unreach', 'addpath')] if th else [])
@@ -839,7 +840,11 @@ def nlri_plans(th=False):
             # the path identifier is four opaque octets: concrete (a decoder which ignores ADD-PATH reads them as its own header)
             n = ([0, 0, 0, 1] if tag.startswith('addpath') else []) + nlri(F, L)
             return upd_reach(afi, safi, n) if tag.endswith('unreach') is False else upd_unreach(afi, safi, n)
-        plans.append(Plan(name, build, variants=variants[:1] if inner and not th else variants, **kw))
+        # the ADD-PATH variants only where the decoder reads a path identifier (the INET family of classes): the others
+        # would re-read the four octets as their own header
+        klass = NLRI.registered_nlri.get('%s/%s' % (AFI.from_int(afi), SAFI.from_int(safi)))
+        vs = variants if (klass is not None and issubclass(klass, INETBase)) else [v for v in variants if not v[0].startswith('addpath')]
+        plans.append(Plan(name, build, variants=vs[:1] if inner and not th else vs, **kw))
 
     for afi_, safi_ in families():
         a, s = int(afi_), int(safi_)
@@ -887,7 +892,7 @@ def nlri_plans(th=False):
                 def b_flow(F, L, comp=comp, vpn=(s == 134)):
                     rd = F.sym('rd', 8) if vpn else []
                     return F.near('len', L + 1 + len(rd)) + rd + [comp] + F.sym('n', L)
-                add('nlri:%s:component-%d' % (fam, comp), b_flow, a, s, inner=True, top=3, keep=4, weight=60, group='nlri:%s:components-%d' % (fam, comps.index(comp) // 5))
+                add('nlri:%s:component-%d' % (fam, comp), b_flow, a, s, inner=True, top=1, keep=3, weight=60, group='nlri:%s:components-%d' % (fam, comps.index(comp) // 5))
     # IPv4 unicast in the sections of the UPDATE itself
     plans.append(Plan('nlri:ipv4-unicast:withdrawn', lambda F, L: be(L, 2) + F.sym('n', L) + [0, 0], top=12))
     plans.append(Plan('nlri:ipv4-unicast:announced', lambda F, L: K.body([], BASE_ATTRS + [NEXT_HOP], [F.sym('n', L)]), top=12))
@@ -1139,7 +1144,7 @@ def units(tier):
             cov = {'keepalive': ('decoded', 'refused'), 'notification': ('decoded',), 'unregistered': ('refused',)}.get(tname, ('decoded', 'refused'))
             us.append(Unit('free/%s' % tname, lambda ctx, t=tname, n=n: h_free(ctx, t, list(range(0, n + 1))), reset=reset_state, hash_const=True,
                            max_seconds=T, max_paths=300000, weight=30, must_cover=cov))
-    for n in ((3, 4, 5, 6, 7) if th else (3, 4, 5, 6)):
+    for n in ((3, 4, 5, 6) if th else (3, 4)):
         us.append(Unit('free/update-attributes/n%d' % n, lambda ctx, n=n: h_free_attrs(ctx, [n]), reset=reset_state, hash_const=True, max_seconds=T,
                        max_paths=300000, weight=30 * n, must_cover=('decoded',)))
     groups = {}
